@@ -18,6 +18,14 @@ def run(ctx):
     rep.absorb(res)
     res2 = ctx.vh(["rawwrite"], timeout=1500)
     rep.absorb(res2)
+    # raw writes through a full / nearly full queue, every policy: AsyncGen behaviours restricted to raw
+    # items, replayed with a gated appender while the caller overwrites its buffer after each call
+    hist = []
+    for pol in ["Block", "Discard", "DiscardOldest"]:
+        hist += ctx.tlc("AsyncGen", "Gen_Async_%s_raw" % pol, timeout=1500).emitted
+    if not hist:
+        raise vf.Infra("AsyncGen(raw) emitted nothing")
+    rep.absorb(ctx.vh_sharded("asyncq", hist, extra=["--negwait_ms", "15"], timeout=1500))
     rep.exhaustive = True
     rep.rule = ("all histories of length 5 over {Refresh(A), Refresh(B), Destroy, GetLogger(hb|root), Write(ha|hb|root)} "
                 "plus %d simulated of length 9, sync and async; each logger has two references, one whose level range "
